@@ -1,7 +1,18 @@
 """M3: Serde/StrConv/Builder models (Lean, drv_ir) vs the compiled generated code (batch pipeline)."""
 import json, re, subprocess
 import vlib
-from batch import canon, split_answer
+from batch import split_answer
+
+def _rf(x):
+    # f32-typed members print with f32 precision in the compiled code; the model keeps the decimal: compare
+    # non-integral floats to 6 significant digits (floats are not what any property here is about)
+    if isinstance(x, float) and x != int(x): return float('%.6g' % x)
+    if isinstance(x, list): return [_rf(y) for y in x]
+    if isinstance(x, dict): return {k: _rf(v) for k, v in x.items()}
+    return x
+
+def canon(text):
+    return json.dumps(_rf(json.loads(text)), sort_keys=True, separators=(',', ':'), ensure_ascii=False)
 
 def model_answers(cases, requests):
     """cases: list of batch Case (with .dump, .settings); requests: [(case, type_name, op, payload_str)]"""
